@@ -15,6 +15,13 @@ mro full H SUB EXT OWN DOC  ->  per class 1..n-1 not in EXT:
                             <_mro>:<number of 'mro' reports>:<find('m') owner or ->:<doc source, - (none) or x (class has no m)>
 mro pyfull H SUB EXT OWN DOC ->  per class 1..n-1: <__mro__ or reject>:<lookup owner or ->:<doc source, - (none) or x (class has no m)>:<inspect.getdoc source>
 ```
+mro uses H SUB EXT STD CONT FUNC HID ORDER -> per class not in EXT, fields joined by `:`:
+                            mro(False,True) : mro(True,False) : mro(False,False) : mro(True) while _mro is None :
+                            mro(include_self=False) while _mro is None : is_exception : _find_dunder_constructor
+                            (owner.name, names 0=m 1=__new__ 2=__init__) : overrides(m) : overriding_subclasses(m) :
+                            inherited_members (owner.name,…).  STD = external ids named in _STD_LIB_EXCEPTIONS, CONT/FUNC =
+                            per class names in contents / names that are Functions, HID = hidden classes, ORDER = the
+                            order in which defaultPostProcess visits the classes
 mro second SC RAW INIT EXP RES TRIG -> `_finalbaseobjects` per class (N = not set; 0 = None, k+1 = class k) after
                             `_init_mro` ran for the classes TRIG: SC scope per class, RAW base names per class,
                             INIT `_initialbaseobjects` (0 = None), EXP what `_initialbases` denote (0 = no class), RES triples scope,name,class
@@ -86,6 +93,34 @@ def handle (args : List String) : String :=
           ++ ":" ++ (if owns c 0 then showOpt (PyMro.docSource bases owns hasDoc c 0) else "x")
           ++ ":" ++ (if owns c 0 then showOpt (PyMro.inspectGetdoc bases owns hasDoc c 0) else "x"))
     | _, _, _, _, _ => "bad-op"
+  | ["uses", h, sb, e, st, ct, fn, hd, od] =>
+    match parseLists h, parseLists sb, Proto.natList e, Proto.natList st, parseLists ct, parseLists fn,
+        Proto.natList hd, Proto.natList od with
+    | some hs, some sbs, some es, some sts, some cts, some fns, some hds, some ods =>
+      let ext := fun c => es.contains c
+      let std := fun c => sts.contains c
+      let bases := fun c => localBases ext (rawOf hs sbs c)
+      let rawIds := fun c => (rawOf hs sbs c).map (·.1)
+      let contents := fun c => cts.getD c []
+      let owns := fun c n => (contents c).contains n
+      let isFunc := fun c n => (fns.getD c []).contains n
+      let visC := fun c => !hds.contains c
+      let visM := fun c (_ : Nat) => !hds.contains c
+      let pair := fun (p : Nat × Nat) => toString p.1 ++ "." ++ toString p.2
+      let pairs := fun (l : List (Nat × Nat)) => if l.isEmpty then "-" else ",".intercalate (l.map pair)
+      "|".intercalate (((classesOf hs).filter (fun c => !ext c)).map fun c =>
+        ":".intercalate [
+          Proto.showNatList (classMro bases ext c false true),
+          Proto.showNatList (classMro bases ext c true false),
+          Proto.showNatList (classMro bases ext c false false),
+          Proto.showNatList (classMroEarly rawIds ext c true),
+          Proto.showNatList (classMroEarly rawIds ext c false),
+          (if isException bases ext std c then "1" else "0"),
+          (match findDunderConstructor bases ext owns isFunc c 1 2 with | some p => pair p | none => "-"),
+          showOpt (overrides bases ext owns c 0),
+          Proto.showNatList (overridingSubclasses rawIds ods owns visC c 0),
+          pairs (inheritedMembers contents visM (classMro bases ext c))])
+    | _, _, _, _, _, _, _, _ => "bad-op"
   | ["second", sc, raw, ini, ex, res, trig] =>
     match Proto.natList sc, parseLists raw, parseLists ini, parseLists ex, parseLists res, Proto.natList trig with
     | some scs, some raws, some inis, some exs, some ress, some trigs =>
